@@ -1,10 +1,93 @@
 import Driver.Common
-open Lean Drv
+import RxModel.CombN
+import RxModel.CombHO
+import RxModel.CombSeq
+open Lean Drv Comb
 
 namespace DrvComb
 
-def handle (op : String) (_j : Json) : Except String Json := do
+def notifOfJson (f : Json → Except String ι) : Json → Except String (Notif ι)
+  | .arr #[.str "N", v] => do pure (.next (← f v))
+  | .arr #[.str "E", .str e] => pure (.error e)
+  | .arr #[.str "C"] => pure .completed
+  | j => throw s!"bad notification {j.compress}"
+
+def evOfJson (f : Nat → Json → Except String ι) : Json → Except String (Ev ι)
+  | .arr #[.str "s", k, n] => do
+      let k ← k.getNat?
+      pure (.src k (← notifOfJson (f k) n))
+  | .arr #[.str "t"] => pure .tick
+  | .arr #[.str "d"] => pure .dispose
+  | j => throw s!"bad event {j.compress}"
+
+def notifToJson (f : β → Json) : Notif β → Json
+  | .next v => Json.arr #[.str "N", f v]
+  | .error e => Json.arr #[.str "E", .str e]
+  | .completed => Json.arr #[.str "C"]
+
+def effToJson (f : β → Json) : Eff β → Json
+  | .emit n => Json.arr #[.str "e", notifToJson f n]
+  | .sub k => Json.arr #[.str "s", .num (JsonNumber.fromNat k)]
+  | .unsub k => Json.arr #[.str "u", .num (JsonNumber.fromNat k)]
+
+def tupToJson (xs : List Val) : Json := valToJson (.tup xs)
+
+def plainEv (_ : Nat) (j : Json) : Except String Val := valOfJson j
+/-- higher-order: an element of the outer source (id 0) is the trace id (≥ 1) of an inner = `obs (id - 1)` -/
+def hoEv (k : Nat) (j : Json) : Except String (HV Val) :=
+  if k = 0 then do pure (.obs ((← j.getNat?) - 1)) else do pure (.val (← valOfJson j))
+
+def respond {σ ι β} (m : Machine σ ι β) (init : St σ) (initSubs : List Nat) (evs : List (Ev ι)) (f : β → Json) : Json :=
+  Json.mkObj [("init", Json.arr (initSubs.map (fun k => effToJson f (Eff.sub k : Eff β))).toArray),
+              ("steps", Json.arr ((runE m init evs).map (fun l => Json.arr (l.map (effToJson f)).toArray)).toArray)]
+
+def itemOfJson : Json → Except String Item
+  | .str "src" => pure .src
+  | .str "stop" => pure .stop
+  | j => do pure (.raise (← j.getObjValAs? String "raise"))
+
+def handle (op : String) (j : Json) : Except String Json := do
+  let evsJ ← getArr j "events"
   match op with
+  | "zip" =>
+    let n ← getNat j "n"
+    pure (respond (zipM n) (zipInit n) (List.range n) (← evsJ.mapM (evOfJson plainEv)) tupToJson)
+  | "combine_latest" =>
+    let n ← getNat j "n"
+    pure (respond (clM n) (clInit n) (List.range n) (← evsJ.mapM (evOfJson plainEv)) tupToJson)
+  | "with_latest_from" =>
+    let n ← getNat j "n"     -- total number of sources (parent + children)
+    pure (respond (wlfM (n - 1)) (wlfInit (n - 1)) (wlfInitSubs (n - 1)) (← evsJ.mapM (evOfJson plainEv)) tupToJson)
+  | "fork_join" =>
+    let n ← getNat j "n"
+    pure (respond (fjM n) (fjInit n) (List.range n) (← evsJ.mapM (evOfJson plainEv)) tupToJson)
+  | "amb" =>
+    let n ← getNat j "n"
+    pure (respond (ambM n) (ambInit n) (List.range n).reverse (← evsJ.mapM (evOfJson plainEv)) valToJson)
+  | "amb2" =>
+    pure (respond (ambM 2) amb2Init [0, 1] (← evsJ.mapM (evOfJson plainEv)) valToJson)
+  | "merge_all" =>
+    pure (respond maM (hoInit {}) [0] (← evsJ.mapM (evOfJson hoEv)) valToJson)
+  | "merge" =>
+    let maxc ← getNat j "maxc"
+    pure (respond (mcM maxc) (hoInit {}) [0] (← evsJ.mapM (evOfJson hoEv)) valToJson)
+  | "switch" =>
+    pure (respond swM (hoInit {}) [0] (← evsJ.mapM (evOfJson hoEv)) valToJson)
+  | "seq" =>
+    let kind ← match (← getStr j "kind") with
+      | "concat" => pure SeqKind.concat
+      | "catch" => pure SeqKind.catch
+      | "oern" => pure SeqKind.oern
+      | k => throw s!"bad kind {k}"
+    let items ← (← getArr j "items").mapM itemOfJson
+    let rest ← itemOfJson (← j.getObjVal? "rest")
+    let itemsF : Nat → Item := fun i => (items[i]?).getD rest
+    pure (respond (seqM kind itemsF) seqInit [] (← evsJ.mapM (evOfJson plainEv)) valToJson)
+  | "catch_handler" =>
+    let res : Except Err Unit := match j.getObjValAs? String "res" with
+      | .ok e => .error e
+      | .error _ => .ok ()
+    pure (respond (chM res) chInit [0] (← evsJ.mapM (evOfJson plainEv)) valToJson)
   | _ => throw s!"unknown op {op}"
 
 end DrvComb
